@@ -1,6 +1,9 @@
 package main
 
 import (
+	"github.com/lugu/qiloop/bus/util"
+	"time"
+	gonet "net"
 	"bytes"
 	"errors"
 	"fmt"
@@ -167,6 +170,66 @@ func execMsgWrite(a []string) string {
 	return "ok " + strings.Join(parts, " ")
 }
 
+// countConn: a real connection (deadlines and all) that counts what was read from it
+type countConn struct {
+	gonet.Conn
+	n int
+}
+
+func (c *countConn) Read(p []byte) (int, error) {
+	n, err := c.Conn.Read(p)
+	c.n += n
+	return n, err
+}
+
+var msgConnListener gonet.Listener
+var msgConnPath string
+
+// msg.conn <k> <hex>: a peer writes these bytes on a unix-domain connection and closes it; up to k messages are read
+// from the other end of that connection
+func execMsgConn(a []string) string {
+	k, _ := strconv.Atoi(a[0])
+	data := unhx(a[1])
+	if msgConnListener == nil {
+		msgConnPath = strings.TrimPrefix(util.NewUnixAddr(), "unix://")
+		l, err := gonet.Listen("unix", msgConnPath)
+		if err != nil {
+			return "setup-error:" + err.Error()
+		}
+		msgConnListener = l
+	}
+	peer, err := gonet.Dial("unix", msgConnPath)
+	if err != nil {
+		return "setup-error:" + err.Error()
+	}
+	srv, err := msgConnListener.Accept()
+	if err != nil {
+		peer.Close()
+		return "setup-error:" + err.Error()
+	}
+	defer srv.Close()
+	go func() { peer.Write(data); peer.Close() }()
+	r := &countConn{Conn: srv}
+	var sb strings.Builder
+	for i := 0; i < k; i++ {
+		var m qnet.Message
+		mark := r.n
+		srv.SetReadDeadline(time.Now().Add(5 * time.Second))
+		err := m.Read(r)
+		if err == nil {
+			fmt.Fprintf(&sb, "ok(%s)c=%d ", fmtHeader(m.Header, m.Payload), r.n-mark)
+			continue
+		}
+		if err == io.EOF {
+			sb.WriteString("eof")
+		} else {
+			sb.WriteString("err")
+		}
+		break
+	}
+	return strings.TrimSpace(sb.String())
+}
+
 // failWriter fails its first Write in the given way (and every later one)
 type failWriter struct {
 	mode string
@@ -264,6 +327,7 @@ func init() {
 	executors["msg.reread"] = execMsgReread
 	executors["msg.write"] = execMsgWrite
 	executors["msg.wfail"] = execMsgWriteAfterFailure
+	executors["msg.conn"] = execMsgConn
 	runners["C01"] = runC01
 }
 
@@ -431,6 +495,24 @@ func runC01(r *Rand, tier string, o *Out) {
 		}
 		o.Count("big:around-64KiB")
 	}
+	// messages that arrive on a real connection (a unix-domain socket) whose peer hangs up behind them, or inside the last one
+	for i := 0; i < 40; i++ {
+		var w []byte
+		k := 1 + r.Intn(3)
+		for j := 0; j < k; j++ {
+			h, _ := genHeader(r, true)
+			p := r.Bytes(r.Intn(200))
+			h.Size = uint32(len(p))
+			w = append(w, wireOf(h, p)...)
+		}
+		if r.Chance(40) {
+			w = w[:r.Intn(len(w))]
+			o.Count("connection:cut")
+		} else {
+			o.Count("connection:whole")
+		}
+		o.Do("P", fmt.Sprintf("msg.conn %d %s", k+1, hx(w)), true)
+	}
 	for i := 0; i < n; i++ {
 		switch {
 		case i%5 == 4:
@@ -561,7 +643,7 @@ func genWriteCase(r *Rand, tier string, o *Out) {
 		p1 := r.Bytes(r.Intn(60))
 		h1.Size = uint32(len(p1))
 		mode := []string{"eof0", "err0", "eofk", "short", "errk"}[r.Intn(5)]
-		o.Do(class, fmt.Sprintf("msg.wfail %s %d %d %d %d %d %d %d %d %d %d %s %d %d %d %d %d %d %d %d %d %s", mode, r.Intn(29+len(p1)),
+		o.Do(class, fmt.Sprintf("msg.wfail %s %d %d %d %d %d %d %d %d %d %d %s %d %d %d %d %d %d %d %d %d %s", mode, r.Intn(28+len(p1)),
 			h1.Magic, h1.ID, h1.Size, h1.Version, h1.Type, h1.Flags, h1.Service, h1.Object, h1.Action, hx(p1),
 			h.Magic, h.ID, h.Size, h.Version, h.Type, h.Flags, h.Service, h.Object, h.Action, hx(p)), true)
 		o.Count("write:after-a-failed-write:" + mode)
